@@ -121,6 +121,8 @@ def search(chk, broken):
     DU = [U.Meter, U.Yard, U.Foot]
     evals = 0
     for k in range(n):
+        if chk.over():
+            break
         fp = ['FFP', 'SFP', 'LWIR'][k % 3]
         hu, vu = rng.choice(AU), rng.choice(AU)
         h, v = hu(rng.uniform(0.05, 1)), vu(rng.uniform(0.05, 1))
